@@ -464,7 +464,7 @@ def main():
                   "(open for writing, write, rename, unlink, truncate, link, mkdir, chmod ...; all forests of <= 2 entries over an older / same-mtime / newer .fav, as first save, with .fav4 and stale temporary file, + PRNG(seed) larger ones), "
                   "the recorded call list is compared with save_calls of the model and the directory + fav.Load after each kill with the model's prefix. "
                   "A case is non-trivial if it is a distinct saved tree / distinct loader input reaching a distinct result class / distinct (tree, crash point)",
-             assumptions=["rename(2) replaces the target atomically and data written before the process dies survives it (no power loss): Base/Fs.v",
+             assumptions=["concurrent requests (op 10): that Save shares no state between goroutines of one process is validated by a parallel run of four users' saves (every image read back must be the sequential one), not proved; on code without shared state no schedule can produce a differing image, so the clean verdict cannot flip", "rename(2) replaces the target atomically and data written before the process dies survives it (no power loss): Base/Fs.v",
                           "the process death is simulated by os.Exit at verif-tagged crash points (before every types.BinaryWrite of the save and before the rename) in sweeps 5 and 6, "
                           "and is a real SIGKILL at the entry of every file-system call (ptrace syscall-entry stop: the kernel does not execute the call) in sweep 8; the window of sweep 8 is the call of FavRaw.Save in the child "
                           "(two marker access(2) calls around it), calls are recognised by their x86-64 system-call number (a change of the directory through io_uring or a memory-mapped file would not be seen as a call; its effect on the "
@@ -967,6 +967,29 @@ def run(c, rng, thorough, impl, model, scratch):
                                      "several byte positions of every forest of <= 2 entries, each followed by ordinary Saves of the same and of other users in the same process")
     c.sample({"op": "history of saves", "case": l8[0], "result": o8[0][:200]})
     lap("7 histories")
+
+    # ---------------------------------------------------------------- 7b. saves of DIFFERENT users by several goroutines at once (op 10; validation only)
+    # Concurrent requests of different users run Save in goroutines of one process. The driver first saves each user's tree alone
+    # (the sequential image), then lets one goroutine per user save it again and again, all at once: each .fav must be the
+    # sequential image every time. (A serialiser that stages its bytes in package-level state passes every sequential history.)
+    l10 = []
+    for _ in range(24 if thorough else 6):
+        us = list(range(4)); rng.shuffle(us)
+        l10.append("10 %d|" % (400 if thorough else 150) + "|".join(seq_step(u, 0, random_forest(rng, rng.choice([3, 6, 12, 40]), 3), rng, decorate=rng.choice([0.0, 0.3])) for u in us))
+    o10 = both(l10, "concurrent saves of different users", use_model=False)
+    c.count(len(l10), "concurrent-save batches (4 goroutines)")
+    for line, res in zip(l10, o10):
+        f = res.split()
+        if f[:1] == ["7"]:
+            continue
+        if f[:1] != ["0"]:
+            c.violation("concurrent-save-status", "saves of four users by four goroutines of one process: the driver ends with status %s" % " ".join(f[:2]), {"cases": [line], "expected": "0 0 -1 -1 -1", "got": res[:300]})
+        elif f[1] != "0":
+            c.violation("concurrent-save-differs", "saves of four different users by four goroutines of one process at once: %s of the .fav files read back after a Save are not the image the same Save "
+                        "produces alone (first: user %s, round %s, %s bytes)" % (f[1], f[2], f[3], f[4]), {"cases": [line], "expected": "0 0 -1 -1 -1", "got": res[:300]})
+        else:
+            c.nontrivial(("conc-save", line[:60]))
+    lap("7b concurrent saves")
 
     # ---------------------------------------------------------------- 8. kill points at SYSTEM-CALL granularity (op 9)
     # The crash points of 5. and 6. are calls placed in the source: whatever one step of the source does inside (a helper
